@@ -19,16 +19,21 @@ VARIANTS: Dict[str, Dict[str, Any]] = {
     "raiser+caller": dict(producers={"p1": ["R1"], "p2": ["F1"]}, timer=False),
     # the caller's event exits the state whose timer expires at the same time (timer bookkeeping is shared by both threads)
     "leaver+timer": dict(producers={"p1": ["LEAVE"]}, timer=True, leave=True),
+    # more external sends land during one drain than maxIterations allows self-raised events
+    "burst-during-drain": dict(producers={"p1": ["E1"], "p2": ["F1", "F1", "F1"]}, timer=False, max_iterations=2),
 }
 
 
-def config(timer: bool) -> Dict[str, Any]:
+def config(timer: bool, max_iterations=None) -> Dict[str, Any]:
     a: Dict[str, Any] = {"on": {ev: {"actions": [ev.lower()]} for ev in ("E1", "E2", "F1", "X1")}}
     a["on"]["R1"] = {"actions": ["r1", {"type": "raise", "params": {"event": {"type": "X1"}}}]}
     if timer:
         a["after"] = {"50": {"actions": ["tick"]}}
     a["on"]["LEAVE"] = {"target": "b", "actions": ["leave"]}
-    return {"id": "m", "initial": "a", "states": {"a": a, "b": {}}}
+    cfg = {"id": "m", "initial": "a", "states": {"a": a, "b": {}}}
+    if max_iterations is not None:
+        cfg["maxIterations"] = max_iterations
+    return cfg
 
 
 def run(variant: str, ch: e2.Choices, bound: int) -> Dict[str, Any]:
@@ -47,7 +52,7 @@ def run(variant: str, ch: e2.Choices, bound: int) -> Dict[str, Any]:
         from xstate_statemachine.actions import raise_ as _raise  # noqa: F401  (built-in referenced by name in config)
 
         logic = MachineLogic(actions={n: mk(n) for n in ("e1", "e2", "f1", "x1", "r1", "tick", "leave")})
-        it = SyncInterpreter(create_machine(config(spec["timer"]), logic=logic))
+        it = SyncInterpreter(create_machine(config(spec["timer"], spec.get("max_iterations")), logic=logic))
         cls = SyncInterpreter
         sched.trace_codes = {cls.send.__code__, cls.send_events.__code__, cls._process_event_queue.__code__}
         if spec.get("leave"):
